@@ -218,10 +218,16 @@ class Interp:
                 st = self.ev(e.slice.step) if e.slice.step is not None else None
                 if U in (lo, hi, st):
                     return U
+                if isinstance(v, NS):
+                    g = v.get("__getitem__")
+                    return g.fn(slice(lo, hi, st)) if isinstance(g, Native) else U
                 return v[lo:hi:st]
             k = self.ev(e.slice)
             if k is U:
                 return U
+            if isinstance(v, NS):
+                g = v.get("__getitem__")
+                return g.fn(k) if isinstance(g, Native) else U
             return v[k]
         if isinstance(e, ast.JoinedStr):
             out = ""
